@@ -12,7 +12,7 @@ CHECKS = {
          "Trusts math/big decimal parsing and the recogniser (self-tested on literals at the start of every run). Non-ASCII digits (all Nd/No/Nl runes) and look-alike characters are generated and must be rejected.",
          "DESIGN.md §3 C10"),
  "C01": ("runtime monitor: every ed25519.Verify call judged two-sidedly (accept iff ZIP-215 predicate) by an independent big-integer model; one-sided against crypto/ed25519",
-         "Exploration: ~24 k (quick) / ~1.2 M (thorough) structured triples (honest, bit flips, S+jL for all j, 8x8 torsion shifts of A and R, every encoding of every small-order point, all y>=p encodings, undecodable points, wrong lengths, random) driven through the real Verify; verdict compared both ways with a math/big ZIP-215 model. Held-on-observed.",
+         "Exploration: ~33 k (quick) / ~1.6 M (thorough) structured triples (honest, bit flips, S+jL for all j, 8x8 torsion shifts of A and R, every encoding of every small-order point, all y>=p encodings, undecodable points, wrong lengths, random) driven through the real Verify; verdict compared both ways with a math/big ZIP-215 model. Held-on-observed.",
          "Trusts SHA-512, math/big and the model in harness/oracle/ed (self-tested on RFC 8032 vectors, crypto/ed25519 and the 8 known small-order encodings at every run). Accepting inputs with a non-canonical non-small-order A/R cannot be constructed (needs a discrete log).",
          "DESIGN.md §3 C01"),
  "C07": ("runtime monitor: byte equality of keys and signatures against crypto/ed25519 and an independent RFC 8032 big-integer signer, over every message length 0..300",
@@ -24,7 +24,7 @@ CHECKS = {
          "Trusts SHA-512, math/big and harness/oracle/ecvrf (self-tested on the three RFC 9381 TAI examples). Non-canonical prime-order keys with known discrete log cannot be constructed; canonical-key checking is observed on the reject side only.",
          "DESIGN.md §3 C18"),
  "C02": ("runtime monitor: every node of stepwise and path derivations compared with an independent SLIP-0010 model; retry and permanent-error branches driven through fault-injecting pluggable curves",
-         "Exploration: ~2.4 k (quick) / 60 k (thorough) (curve, seed, path) cases (every prefix of every path is a judged node) plus paths of 255..513 elements on secp256k1, P-256, ed25519 and four harness-defined curves that declare a quarter of all candidates invalid (or return a permanent error for a sixteenth); each master/child/public node, each prefix via DeriveKeyFromPath and one public-side child per node is compared (key, chain code, serialized public key, fingerprint) with the model; undefined derivations must fail, permanent errors must surface.",
+         "Exploration: ~2.9 k (quick) / 67 k (thorough) (curve, seed, path) cases (every prefix of every path is a judged node) plus paths of 255..513 elements on secp256k1, P-256, ed25519 and four harness-defined curves that declare a quarter of all candidates invalid (or return a permanent error for a sixteenth); each master/child/public node, each prefix via DeriveKeyFromPath and one public-side child per node is compared (key, chain code, serialized public key, fingerprint) with the model; undefined derivations must fail, permanent errors must surface.",
          "Trusts HMAC-SHA512/SHA-256/RIPEMD-160 and harness/oracle/slip10m (self-tested on the published SLIP-0010 vectors incl. P-256 retry vectors). Retries on the real curves occur only at 2^-32 / 2^-127 and are exercised through the pluggable curves.",
          "DESIGN.md §3 C02"),
  "C03": ("runtime monitor: sentences and decode verdicts judged by a bit-level BIP-0039 model; both built-in word lists read through the API and compared index for index with the official lists",
@@ -64,7 +64,7 @@ CHECKS = {
          "Trusts harness/oracle/tern (self-tested by brute-force enumeration and TIP-5 vectors). Non-trit inputs are documented as undefined and not generated.",
          "DESIGN.md §3 C14"),
  "C15": ("runtime monitor: Hash compared with an independent bottom-up tree construction for every leaf count; model-generated RFC 6962 audit paths verified against the library's root; instrumented leaves log marshaling calls and inject errors",
-         "Exploration: every n in 0..1500 (quick) / 0..20000 (thorough) plus 2^k-1, 2^k, 2^k+1, four hash functions, ~13 k / 1 M cases.",
+         "Exploration: every n in 0..1500 (quick) / 0..20000 (thorough) plus 2^k-1, 2^k, 2^k+1, four hash functions, ~18 k / 1.4 M cases.",
          "Trusts SHA-2/SHA-1/BLAKE2b and harness/oracle/merklem (self-tested against the recursive RFC 6962 definition and CT reference roots).",
          "DESIGN.md §3 C15"),
  "C20": ("guard-page sanitizer written for this task (mmap/mprotect arenas, buffers flush against upper and lower guards, SetPanicOnFault, canaries) around the assembly routine, plus a three-way differential (assembly, portable, per-lane definition) and cross-build digest comparison",
